@@ -119,7 +119,7 @@ func genName(rng *rand.Rand, destBase string, wantHostile bool) nameSpec {
 	}
 	ups := strings.Repeat("../", 1+rng.IntN(12))
 	var n, cls string
-	switch rng.IntN(24) {
+	switch rng.IntN(26) {
 	case 0:
 		n, cls = "../"+base, "parent-first"
 	case 1:
@@ -177,6 +177,13 @@ func genName(rng *rand.Rand, destBase string, wantHostile bool) nameSpec {
 		// the directory part alone reads as ISO-2022-JP (escape sequences vanish: a parent reference appears), the whole name as Shift_JIS
 		const shiftJIS = "\x82\xa0\x82\xa2\x82\xa4\x82\xa9\x82\xaa\x82\xab\x82\xad\x82\xaf\x82\xb1\x82\xb3\x82\xb5\x82\xb7"
 		n, cls = strings.Repeat("\x1b(B", 5)+"../pwn\x82\xa0/"+strings.Repeat("\x1b", 5)+shiftJIS+".txt", "iso2022-directory-shiftjis-name"
+	case 24:
+		// dots separated by control characters: not a parent reference as written
+		ctl := []string{"\x01", "\x7f", "\x1f\x02", "\t", "\x0b"}[rng.IntN(5)]
+		n, cls = "."+ctl+"./."+ctl+"./"+base, "control-characters-between-dots"
+	case 25:
+		ctl := []string{"\x01", "\x7f", "\x08"}[rng.IntN(3)]
+		n, cls = "d/."+ctl+"./."+ctl+"."+ctl+"/.."+ctl+"/"+ctl+"../"+base, "control-characters-between-dots-deep"
 	default:
 		n, cls = strings.Repeat("../", 2)+"canary-c02/"+base, "parent-to-canary"
 	}
